@@ -98,29 +98,31 @@ Theorem C09_image_to_xp_chief :
 Proof. exact image_to_xp_chief. Qed.
 Print Assumptions C09_image_to_xp_chief.
 
-Theorem C09_path_length_is_path_to_sphere_partial :
-  forall (n_img : R) (xc yc zc Rr opd xr yr zr L M N : T ROps)
-         (opds xs ys zs Ls Ms Ns : list (T ROps)),
-       n_img = 1%R ->
-       k_wf_get_path_length ROps xc yc zc Rr (opds ++ opd :: nil) (xs ++ xr :: nil) 
+Theorem C09_path_length_is_path_to_sphere :
+  forall (xc yc zc Rr opd n xr yr zr L M N : T ROps) (opds xs ys zs Ls Ms Ns : list (T ROps)),
+       k_wf_get_path_length ROps xc yc zc Rr (opds ++ opd :: nil) n (xs ++ xr :: nil)
          (ys ++ yr :: nil) (zs ++ zr :: nil) (Ls ++ L :: nil) (Ms ++ M :: nil) 
          (Ns ++ N :: nil) =
-       path_to_sphere 0 opd n_img (t_xp xc yc zc Rr xr yr zr L M N xs ys zs Ls Ms Ns).
-Proof. exact path_length_is_path_to_sphere_partial. Qed.
-Print Assumptions C09_path_length_is_path_to_sphere_partial.
+       path_to_sphere 0 opd (Rabs n) (t_xp xc yc zc Rr xr yr zr L M N xs ys zs Ls Ms Ns).
+Proof. exact path_length_is_path_to_sphere. Qed.
+Print Assumptions C09_path_length_is_path_to_sphere.
 
 Theorem C09_tilt_dist_is_tilt_xy :
-  forall (ft : string) (opd f0 f1 maxx maxy dx dy E : T ROps),
-       k_wf_tilt_dist ROps opd ft f0 f1 maxx maxy dx dy E =
-       k_wf_tilt_xy ROps opd dx dy ft f0 f1 maxx maxy E.
+  forall (ft : string) (opd f0 f1 maxf vx vy dx dy E nobj : T ROps),
+       k_wf_tilt_dist ROps opd ft f0 f1 maxf vx vy dx dy E nobj =
+       k_wf_tilt_xy ROps opd (dx * ((1 - vx) * (1 - vx)))%R (dy * ((1 - vy) * (1 - vy)))%R ft f0 f1
+         maxf vx vy E nobj.
 Proof. exact tilt_dist_is_tilt_xy. Qed.
 Print Assumptions C09_tilt_dist_is_tilt_xy.
 
 Theorem C09_tilt_difference_angle :
-  forall p q f0 f1 maxx maxy dx dy E : T ROps,
-       (k_wf_tilt_xy ROps p 0 0 "angle" f0 f1 maxx maxy E -
-        k_wf_tilt_dist ROps q "angle" f0 f1 maxx maxy dx dy E)%R =
-       (p - q - (dx * sin (rad (maxx * f0)) * E / 2 + dy * sin (rad (maxy * f1)) * E / 2))%R.
+  forall p q f0 f1 maxf vx vy dx dy E nobj : T ROps,
+       (k_wf_tilt_xy ROps p 0 0 "angle" f0 f1 maxf vx vy E nobj -
+        k_wf_tilt_dist ROps q "angle" f0 f1 maxf vx vy dx dy E nobj)%R =
+       (p - q -
+        (dx * ((1 - vx) * (1 - vx)) * sin (rad (maxf * f0)) * E / 2 +
+         dy * ((1 - vy) * (1 - vy)) * sin (rad (maxf * f1)) * E / 2) * 
+        Rabs nobj)%R.
 Proof. exact tilt_difference_angle. Qed.
 Print Assumptions C09_tilt_difference_angle.
 
@@ -159,8 +161,8 @@ Theorem C09_launch_dir_y :
 Proof. exact launch_dir_y. Qed.
 Print Assumptions C09_launch_dir_y.
 
-Theorem C09_tilt_vs_launch :
-  forall (c : launchcfg ROps) (w Hy dx dy vx vy p q maxx maxy : R) (r r0 : ray ROps),
+Theorem C09_tilt_matches_launch :
+  forall (c : launchcfg ROps) (w Hy dx dy vx vy p q nobj : R) (r r0 : ray ROps),
        lc_infinite c = true ->
        lc_angle c = true ->
        lc_pos1 c = 0%R ->
@@ -168,28 +170,12 @@ Theorem C09_tilt_vs_launch :
        (0 < cos (rad (lc_maxfield c * Hy)))%R ->
        launch c w 0%R Hy (scaled (O:=ROps) dx vx) (scaled (O:=ROps) dy vy) vx vy = Some r ->
        launch c w 0%R Hy (scaled (O:=ROps) 0%R vx) (scaled (O:=ROps) 0%R vy) vx vy = Some r0 ->
-       (k_wf_tilt_xy ROps p 0 0 "angle" 0 Hy maxx maxy (lc_EPD c) -
-        k_wf_tilt_dist ROps q "angle" 0 Hy maxx maxy dx dy (lc_EPD c))%R =
-       (p - q - plane_wave_path 1 (rL r, rM r, rN r) (rx r0, ry r0, rz r0) (rx r, ry r, rz r) -
-        dy * lc_EPD c / 2 *
-        (sin (rad (maxy * Hy)) - (1 - vy) * (1 - vy) * sin (rad (lc_maxfield c * Hy))))%R.
-Proof. exact tilt_vs_launch. Qed.
-Print Assumptions C09_tilt_vs_launch.
-
-Theorem C09_tilt_matches_launch_partial :
-  forall (c : launchcfg ROps) (w Hy dx dy p q maxx : R) (r r0 : ray ROps),
-       lc_infinite c = true ->
-       lc_angle c = true ->
-       lc_pos1 c = 0%R ->
-       (0 < lc_EPD c - lc_minpos c + lc_EPL c)%R ->
-       (0 < cos (rad (lc_maxfield c * Hy)))%R ->
-       launch c w 0%R Hy (scaled (O:=ROps) dx 0%R) (scaled (O:=ROps) dy 0%R) 0%R 0%R = Some r ->
-       launch c w 0%R Hy (scaled (O:=ROps) 0%R 0%R) (scaled (O:=ROps) 0%R 0%R) 0%R 0%R = Some r0 ->
-       (k_wf_tilt_xy ROps p 0 0 "angle" 0 Hy maxx (lc_maxfield c) (lc_EPD c) -
-        k_wf_tilt_dist ROps q "angle" 0 Hy maxx (lc_maxfield c) dx dy (lc_EPD c))%R =
-       (p - q - plane_wave_path 1 (rL r, rM r, rN r) (rx r0, ry r0, rz r0) (rx r, ry r, rz r))%R.
-Proof. exact tilt_matches_launch_partial. Qed.
-Print Assumptions C09_tilt_matches_launch_partial.
+       (k_wf_tilt_xy ROps p 0 0 "angle" 0 Hy (lc_maxfield c) vx vy (lc_EPD c) nobj -
+        k_wf_tilt_dist ROps q "angle" 0 Hy (lc_maxfield c) vx vy dx dy (lc_EPD c) nobj)%R =
+       (p - q -
+        plane_wave_path (Rabs nobj) (rL r, rM r, rN r) (rx r0, ry r0, rz r0) (rx r, ry r, rz r))%R.
+Proof. exact tilt_matches_launch. Qed.
+Print Assumptions C09_tilt_matches_launch.
 
 Theorem C09_finite_object_common_point :
   forall (c : launchcfg ROps) (w Hx Hy Px Py vx vy Px' Py' vx' vy' : R) (r r' : ray ROps),
@@ -200,34 +186,34 @@ Proof. exact finite_object_common_point. Qed.
 Print Assumptions C09_finite_object_common_point.
 
 Theorem C09_height_fields_no_correction :
-  forall opd f0 f1 maxx maxy dx dy E : T ROps,
-       k_wf_tilt_dist ROps opd "object_height" f0 f1 maxx maxy dx dy E = opd /\
-       k_wf_tilt_xy ROps opd 0%R 0%R "object_height" f0 f1 maxx maxy E = opd.
+  forall opd f0 f1 maxf vx vy dx dy E nobj : T ROps,
+       k_wf_tilt_dist ROps opd "object_height" f0 f1 maxf vx vy dx dy E nobj = opd /\
+       k_wf_tilt_xy ROps opd 0%R 0%R "object_height" f0 f1 maxf vx vy E nobj = opd.
 Proof. exact height_fields_no_correction. Qed.
 Print Assumptions C09_height_fields_no_correction.
 
 Theorem C09_chief_sample_zero :
-  forall (ss : list (surf ROps)) (pz : T ROps) (c : wfcfg ROps) (w Hx Hy : T ROps)
+  forall (ss : list (surf ROps)) (pz : T ROps) (c : wfcfg ROps) (w Hx Hy vx vy : T ROps)
          (l0 : ray ROps) (ref : T ROps * T ROps * T ROps * T ROps * T ROps) 
          (v i : T ROps),
-       chief_ref ss pz c Hx Hy l0 = Some ref ->
-       sample ss c w Hx Hy ref l0 0%R 0%R = Some (v, i) -> v = 0%R.
+       chief_ref ss pz c Hx Hy vx vy l0 = Some ref ->
+       sample ss c w Hx Hy vx vy ref l0 0%R 0%R = Some (v, i) -> v = 0%R.
 Proof. exact chief_sample_zero. Qed.
 Print Assumptions C09_chief_sample_zero.
 
 Theorem C09_field_data_from_samples :
-  forall (ss : list (surf ROps)) (pz : T ROps) (c : wfcfg ROps) (w Hx Hy : T ROps)
+  forall (ss : list (surf ROps)) (pz : T ROps) (c : wfcfg ROps) (w Hx Hy vx vy : T ROps)
          (chief : ray ROps) (batch : list (ray ROps * (T ROps * T ROps)))
          (opds ints : list (T ROps)),
-       field_data_from ss pz c w Hx Hy chief batch = Some (opds, ints) ->
+       field_data_from ss pz c w Hx Hy vx vy chief batch = Some (opds, ints) ->
        exists ref : T ROps * T ROps * T ROps * T ROps * T ROps,
-         chief_ref ss pz c Hx Hy chief = Some ref /\
+         chief_ref ss pz c Hx Hy vx vy chief = Some ref /\
          length opds = length batch /\
          length ints = length batch /\
          (forall (k : nat) (l0 : ray ROps) (dx dy : T ROps),
           nth_error batch k = Some (l0, (dx, dy)) ->
           exists v i : T ROps,
-            sample ss c w Hx Hy ref l0 dx dy = Some (v, i) /\
+            sample ss c w Hx Hy vx vy ref l0 dx dy = Some (v, i) /\
             nth_error opds k = Some v /\ nth_error ints k = Some i).
 Proof. exact field_data_from_samples. Qed.
 Print Assumptions C09_field_data_from_samples.
@@ -241,52 +227,56 @@ Theorem C09_field_data_chief_zero :
 Proof. exact field_data_chief_zero. Qed.
 Print Assumptions C09_field_data_chief_zero.
 
-Theorem C09_opd_definition_infinite_partial :
+Theorem C09_opd_definition_infinite :
   forall (ss : list (surf ROps)) (pz : T ROps) (wc : wfcfg ROps) (lc : launchcfg ROps)
-         (w : T ROps) (Hy : R) (dx dy : T ROps) (l0c l0 : ray ROps) (recs_c recs : list (ray ROps))
-         (ref : T ROps * T ROps * T ROps * T ROps * T ROps) (v i : T ROps),
+         (w : T ROps) (Hy : R) (vx vy dx dy : T ROps) (l0c l0 : ray ROps)
+         (recs_c recs : list (ray ROps)) (ref : T ROps * T ROps * T ROps * T ROps * T ROps)
+         (v i : T ROps),
        lc_infinite lc = true ->
        lc_angle lc = true ->
        lc_pos1 lc = 0%R ->
        (0 < lc_EPD lc - lc_minpos lc + lc_EPL lc)%R ->
        (0 < cos (rad (lc_maxfield lc * Hy)))%R ->
        w_ftype wc = "angle"%string ->
-       w_maxy wc = lc_maxfield lc ->
+       w_maxfield wc = lc_maxfield lc ->
        w_EPD wc = lc_EPD lc ->
-       launch lc w 0%R Hy (scaled (O:=ROps) 0%R 0%R) (scaled (O:=ROps) 0%R 0%R) 0%R 0%R = Some l0c ->
-       launch lc w 0%R Hy (scaled (O:=ROps) dx 0%R) (scaled (O:=ROps) dy 0%R) 0%R 0%R = Some l0 ->
+       launch lc w 0%R Hy (scaled (O:=ROps) 0%R vx) (scaled (O:=ROps) 0%R vy) vx vy = Some l0c ->
+       launch lc w 0%R Hy (scaled (O:=ROps) dx vx) (scaled (O:=ROps) dy vy) vx vy = Some l0 ->
        trace ss l0c = Some recs_c ->
        trace ss l0 = Some recs ->
-       chief_ref ss pz wc 0%R Hy l0c = Some ref ->
-       sample ss wc w 0%R Hy ref l0 dx dy = Some (v, i) ->
+       chief_ref ss pz wc 0%R Hy vx vy l0c = Some ref ->
+       sample ss wc w 0%R Hy vx vy ref l0 dx dy = Some (v, i) ->
        let ec := image_rec l0c recs_c in
        let e := image_rec l0 recs in
        let Rr := sqrt (ref_radius_sq (rx ec, ry ec, rz ec) pz) in
+       let n_obj := Rabs (n_object ss) in
+       let n_img := Rabs (n_image ss) in
        v =
-       opd_waves (path_to_sphere 0 (ropd ec) 1 (dist_back (rx ec) (ry ec) (rz ec) Rr ec))
+       opd_waves (path_to_sphere 0 (ropd ec) n_img (dist_back (rx ec) (ry ec) (rz ec) Rr ec))
          (path_to_sphere
-            (plane_wave_path 1 (rL l0, rM l0, rN l0) (rx l0c, ry l0c, rz l0c) (rx l0, ry l0, rz l0))
-            (ropd e) 1 (dist_back (rx ec) (ry ec) (rz ec) Rr e)) w.
-Proof. exact opd_definition_infinite_partial. Qed.
-Print Assumptions C09_opd_definition_infinite_partial.
+            (plane_wave_path n_obj (rL l0, rM l0, rN l0) (rx l0c, ry l0c, rz l0c)
+               (rx l0, ry l0, rz l0)) (ropd e) n_img (dist_back (rx ec) (ry ec) (rz ec) Rr e)) w.
+Proof. exact opd_definition_infinite. Qed.
+Print Assumptions C09_opd_definition_infinite.
 
-Theorem C09_opd_definition_finite_partial :
-  forall (ss : list (surf ROps)) (pz : T ROps) (wc : wfcfg ROps) (w Hx Hy dx dy : T ROps)
-         (l0c l0 : ray ROps) (recs_c recs : list (ray ROps))
+Theorem C09_opd_definition_finite :
+  forall (ss : list (surf ROps)) (pz : T ROps) (wc : wfcfg ROps)
+         (w Hx Hy vx vy dx dy : T ROps) (l0c l0 : ray ROps) (recs_c recs : list (ray ROps))
          (ref : T ROps * T ROps * T ROps * T ROps * T ROps) (v i : T ROps),
        w_ftype wc = "object_height"%string ->
        trace ss l0c = Some recs_c ->
        trace ss l0 = Some recs ->
-       chief_ref ss pz wc Hx Hy l0c = Some ref ->
-       sample ss wc w Hx Hy ref l0 dx dy = Some (v, i) ->
+       chief_ref ss pz wc Hx Hy vx vy l0c = Some ref ->
+       sample ss wc w Hx Hy vx vy ref l0 dx dy = Some (v, i) ->
        let ec := image_rec l0c recs_c in
        let e := image_rec l0 recs in
        let Rr := sqrt (ref_radius_sq (rx ec, ry ec, rz ec) pz) in
+       let n_img := Rabs (n_image ss) in
        v =
-       opd_waves (path_to_sphere 0 (ropd ec) 1 (dist_back (rx ec) (ry ec) (rz ec) Rr ec))
-         (path_to_sphere 0 (ropd e) 1 (dist_back (rx ec) (ry ec) (rz ec) Rr e)) w.
-Proof. exact opd_definition_finite_partial. Qed.
-Print Assumptions C09_opd_definition_finite_partial.
+       opd_waves (path_to_sphere 0 (ropd ec) n_img (dist_back (rx ec) (ry ec) (rz ec) Rr ec))
+         (path_to_sphere 0 (ropd e) n_img (dist_back (rx ec) (ry ec) (rz ec) Rr e)) w.
+Proof. exact opd_definition_finite. Qed.
+Print Assumptions C09_opd_definition_finite.
 
 Theorem C09_sample_points_on_reference_sphere :
   forall (pz : R) (ec e : ray ROps),
